@@ -1,5 +1,132 @@
 package props
 
-import "os"
+import (
+	"go/ast"
+	"go/token"
+	"go/types"
+	"os"
+	"sort"
+
+	"verifcheck/core"
+)
 
 func os_Getenv(k string) string { return os.Getenv(k) }
+
+// reachable returns the declared functions of package rel reachable from roots through
+// statically resolved calls (including calls made inside their function literals and go
+// statements), roots included, sorted by name.
+func reachable(c *Ctx, rel string, roots ...string) []*core.Func {
+	fns := c.P.FuncsOf(rel)
+	byObj := map[types.Object]*core.Func{}
+	byName := map[string]*core.Func{}
+	for _, f := range fns {
+		if f.Obj != nil {
+			byObj[f.Obj] = f
+		}
+		byName[f.Name] = f
+	}
+	seen := map[*core.Func]bool{}
+	var work []*core.Func
+	for _, r := range roots {
+		if f := byName[r]; f != nil && !seen[f] {
+			seen[f] = true
+			work = append(work, f)
+		}
+	}
+	for len(work) > 0 {
+		f := work[len(work)-1]
+		work = work[:len(work)-1]
+		ast.Inspect(f.Body, func(n ast.Node) bool {
+			var o types.Object
+			switch x := n.(type) {
+			case *ast.CallExpr:
+				o = core.Callee(f.Info(), x)
+			case *ast.SelectorExpr: // method values b.run passed around
+				o = f.Info().Uses[x.Sel]
+			case *ast.Ident:
+				o = f.Info().Uses[x]
+			}
+			if fo, ok := o.(*types.Func); ok {
+				if t := byObj[fo.Origin()]; t != nil && !seen[t] {
+					seen[t] = true
+					work = append(work, t)
+				}
+			}
+			return true
+		})
+	}
+	var out []*core.Func
+	for f := range seen {
+		out = append(out, f)
+	}
+	sort.Slice(out, func(i, j int) bool { return out[i].Name < out[j].Name })
+	return out
+}
+
+// withLits returns f followed by all its nested literals.
+func withLits(f *core.Func) []*core.Func { return append([]*core.Func{f}, f.Lits()...) }
+
+// rangeLoops returns the range statements in f (shallow) with the object ranged over.
+type rangeLoop struct {
+	Stmt *ast.RangeStmt
+	Over types.Object // nil unless ranging over a plain variable
+}
+
+func rangeLoops(f *core.Func) []rangeLoop {
+	var out []rangeLoop
+	core.InspectShallow(f.Body, func(n ast.Node) bool {
+		if rs, ok := n.(*ast.RangeStmt); ok {
+			rl := rangeLoop{Stmt: rs}
+			if p := core.PathOf(f.Info(), rs.X); p.Valid() && len(p.Fields) == 0 {
+				rl.Over = p.Root
+			}
+			out = append(out, rl)
+		}
+		return true
+	})
+	return out
+}
+
+func within(outer, inner ast.Node) bool { return outer.Pos() <= inner.Pos() && inner.End() <= outer.End() }
+
+// mentionsSel: does n contain a selector with the given field/method name?
+func mentionsSel(n ast.Node, name string) bool {
+	found := false
+	ast.Inspect(n, func(m ast.Node) bool {
+		if se, ok := m.(*ast.SelectorExpr); ok && se.Sel.Name == name {
+			found = true
+		}
+		return !found
+	})
+	return found
+}
+
+// isLenOf matches len(<path>) and returns the path key.
+func isLenOf(info *types.Info, e ast.Expr) (core.Path, bool) {
+	call, ok := ast.Unparen(e).(*ast.CallExpr)
+	if !ok || core.CalleeName(info, call) != "builtin.len" || len(call.Args) != 1 {
+		return core.Path{}, false
+	}
+	p := core.PathOf(info, call.Args[0])
+	return p, p.Valid()
+}
+
+// cmpWithLen: cond compares expression `x` (rendered) with len(s); returns true if so.
+func cmpWithLen(info *types.Info, cond ast.Expr, xs string, s core.Path) (op token.Token, xOnLeft bool, ok bool) {
+	be, isB := ast.Unparen(cond).(*ast.BinaryExpr)
+	if !isB {
+		return 0, false, false
+	}
+	switch be.Op {
+	case token.LSS, token.LEQ, token.GTR, token.GEQ, token.EQL, token.NEQ:
+	default:
+		return 0, false, false
+	}
+	if p, isLen := isLenOf(info, be.Y); isLen && p.Key() == s.Key() && core.ExprString(be.X) == xs {
+		return be.Op, true, true
+	}
+	if p, isLen := isLenOf(info, be.X); isLen && p.Key() == s.Key() && core.ExprString(be.Y) == xs {
+		return be.Op, false, true
+	}
+	return 0, false, false
+}
